@@ -204,7 +204,7 @@ func runC18(c *Ctx) {
 	mon.DiscardStdLog()
 	nprog := c.Pick(5000, 100000)
 	var mu sync.Mutex
-	var evals, consoleBytes, calls, fn9, fn2, warnsSeen, unsupported, pageCross, secondRounds, flakyRuns int64
+	var evals, consoleBytes, calls, fn9, fn2, warnsSeen, unsupported, pageCross, secondRounds, flakyRuns, loadedByFile int64
 	distinct := mon.NewDistinct(1_000_000)
 	Parallel(nprog, func(pi int) {
 		r := mon.NewRng(mon.Hash(uint64(c.Seed), uint64(pi), 0xC18))
@@ -248,7 +248,21 @@ func runC18(c *Ctx) {
 		for round := 0; round < nrounds; round++ {
 			p := genC18(r, 4096)
 			swapMachine := round == 1 && pi%6 == 3
-			if !swapMachine {
+			if !swapMachine && pi%8 == 6 {
+				// through the loader the command uses (also for the SECOND program of a
+				// machine: a reload into the same memory)
+				path := filepath.Join(c.Tmp, fmt.Sprintf("c18-load-%d-%d.cim", pi, round))
+				os.WriteFile(path, p.Image, 0o644)
+				lerr := mem.LoadFile(path)
+				os.Remove(path)
+				if lerr != nil {
+					c.R.Violation("C18/LoadFile", map[string]interface{}{"what": "Memory.LoadFile failed on a generated program image: " + lerr.Error(), "image_bytes": len(p.Image), "program": pi})
+					break
+				}
+				mu.Lock()
+				loadedByFile++
+				mu.Unlock()
+			} else if !swapMachine {
 				for i, b := range p.Image {
 					mem.Set(0x0100+uint16(i), b)
 				}
@@ -523,6 +537,7 @@ func runC18(c *Ctx) {
 	c.R.Set("cmd_zexdoc_binary_runs", binRuns)
 	c.R.Set("second_programs_on_the_same_cpu_and_machine", secondRounds)
 	c.R.Set("runs_with_one_refused_console_write", flakyRuns)
+	c.R.Set("programs_loaded_through_Memory_LoadFile", loadedByFile)
 	c.R.Set("distinct_nontrivial", distinct.N())
 	c.R.Set("console_bytes", consoleBytes)
 	c.R.Set("bdos_calls", calls)
@@ -532,7 +547,7 @@ func runC18(c *Ctx) {
 	c.R.Set("warning_lines_seen", warnsSeen)
 	c.R.Set("unsupported_function_calls_recorded", unsupported)
 	c.R.Set("exhaustive", false)
-	c.R.Set("rule", "generated programs of 1..12 mixed calls on tinycpm (as imported from /repo): function 2 with every E value incl. '$', function 9 with strings of length 0..4096 over every byte value except '$' (long strings contain all 255 values; 1/3 high bytes) at arbitrary addresses incl. straddling 256-byte pages, OUT (n!=0),A and IN A,(n) (must warn, no console byte), an unsupported function number only as the last call (recorded, no verdict), then JP 0; BreakPoints on every call's return address: SP restored, the caller's code intact; the writer must receive exactly the concatenation in program order, warning lines only for non-console port traffic, the run must end halted at FF03; every third machine then gets a second program loaded and run on the same CPU object (sometimes on a fresh machine swapped in under that CPU and driven by Step); half of the machines write to a plain io.Writer without WriteByte/Flush; a second tinycpm machine configured alongside must see none of the traffic. A sample of programs is also written as zexdoc.cim / zexall.cim and run through the BUILT cmd/zexdoc binary (real stdout, stderr, exit status). Distinct = distinct (program, number of calls, console length); every program makes at least one call")
+	c.R.Set("rule", "generated programs of 1..12 mixed calls on tinycpm (as imported from /repo): function 2 with every E value incl. '$', function 9 with strings of length 0..4096 over every byte value except '$' (long strings contain all 255 values; 1/3 high bytes) at arbitrary addresses incl. straddling 256-byte pages, OUT (n!=0),A and IN A,(n) (must warn, no console byte), an unsupported function number only as the last call (recorded, no verdict), then JP 0; BreakPoints on every call's return address: SP restored, the caller's code intact; the writer must receive exactly the concatenation in program order, warning lines only for non-console port traffic, the run must end halted at FF03; an eighth of the machines get their programs through Memory.LoadFile (the second one as a reload into the same memory); every third machine then gets a second program loaded and run on the same CPU object (sometimes on a fresh machine swapped in under that CPU and driven by Step); half of the machines write to a plain io.Writer without WriteByte/Flush; a second tinycpm machine configured alongside must see none of the traffic. A sample of programs is also written as zexdoc.cim / zexall.cim and run through the BUILT cmd/zexdoc binary (real stdout, stderr, exit status). Distinct = distinct (program, number of calls, console length); every program makes at least one call")
 	c.R.Assume("unsupported BDOS function numbers have no specified outcome")
 }
 
